@@ -444,7 +444,9 @@ def stepElem {α : Type} [DecidableEq α] [Elem α] (model : Bool) (ty : String)
       firstBad [chk (field obs "mutp" == some "0") "the argument was modified",
         chk (tok == "ok") "result want ok",
         chk (sameNil (field obs "k") (renderSlice ks)) s!"keys want {renderSlice ks}",
-        chk (sameNil (field obs "v") (renderSlice vs)) s!"values want {renderSlice vs}"]
+        chk (sameNil (field obs "v") (renderSlice vs)) s!"values want {renderSlice vs}",
+        chk (field obs "rt" == some "ok" || field obs "rt" == some "na" || field obs "rt" == none)
+          s!"NewPairs(SplitPairs(p)) did not give p back for a non-nil p ({(field obs "rt").getD "?"}): the pair conversions are not mutually inverse"]
     | .err e => some s!"model error {e.render}"
     | .panic m => chk (tok == renderPanic m) s!"result want {renderPanic m}"
   | ["pr.flatten"] =>
